@@ -169,8 +169,15 @@ Definition probe_points (cs : list Q) : list point :=
   let mids := flat_map (fun a => map (fun b => ((a + b) / (2 # 1))%Q) cs) cs in
   flat_map points_at (base ++ mids).
 
+(* the constants without repetitions (large results repeat their few constants very often) *)
+Fixpoint dedup (l : list Q) : list Q :=
+  match l with
+  | [] => []
+  | x :: r => if existsb (Qeq_bool x) r then dedup r else x :: dedup r
+  end.
+
 Definition failing (spec : point -> bool) (sets : list sv) : list point :=
-  filter (fun p => negb (spec p)) (probe_points (flat_map consts sets)).
+  filter (fun p => negb (spec p)) (probe_points (dedup (flat_map consts sets))).
 
 Definition check_union (l : list sv) (R : sv) : list point :=
   failing (fun p => Bool.eqb (In_set p R) (existsb (In_set p) l)) (R :: l).
